@@ -285,6 +285,7 @@ fn layer_two(ctx: &Ctx, totals: &mut LoomTotals) {
 pub fn run(ctx: &Ctx) -> i32 {
     let t0 = std::time::Instant::now();
     let mut walls = serde_json::Map::new();
+    let mut capped = 0u64;
     layer_real_pool(ctx);
     walls.insert("real_pool".into(), json!(t0.elapsed().as_secs_f64()));
     if loom_available() {
@@ -297,6 +298,7 @@ pub fn run(ctx: &Ctx) -> i32 {
         let mut totals = LoomTotals::default();
         layer_two(ctx, &mut totals);
         report_loom(ctx, &totals);
+        capped = totals.capped;
         walls.insert("schedules".into(), json!(t2.elapsed().as_secs_f64()));
     } else {
         ctx.set("loom", json!("NOT RUN: the loom worker is not built (/verif/target/loom/release/vloom missing or VERIF_NO_LOOM set); decompositions and schedules were not explored in this run"));
@@ -309,7 +311,8 @@ pub fn run(ctx: &Ctx) -> i32 {
     ctx.assume("history enumerations beyond the stated cap per configuration are cut (counted as capped); runs where the specification reports a tie / near-zero regret sum are counted, not judged");
     ctx.finish(
         "every draw history (up to the cap) of every valid game within the bounds + families x {sampled, external} x presets x budgets, each under every task target 1..=12 (decomposition) and, for the small universe and the collision games, under every schedule (loom); plus real-pool runs through the public entry point; states = decomposition cases + real-pool runs + loom schedules; non-trivial = the frontier is split into >= 2 tasks",
-        true,
+        // exhaustive unless a loom case hit its cap or a history enumeration was cut (both counted)
+        capped == 0 && ctx.counter("history_enumerations_capped") == 0,
         "E-CHOICE x E-SCHED: the one-thread solver enumerates the draw histories; each history pins the real multi-threaded solver, which is then explored over task decompositions and (loom) over thread interleavings and compared with the one-thread run",
     )
 }
